@@ -26,6 +26,14 @@ Shape(t, k) ==
          kinds |-> IF t = 31 THEN << 0, 1 >> ELSE IF Family(t) = "polygon" THEN << 0, 0 >> ELSE << >>,
          box |-> IF IsPointType(t) THEN ZeroBox ELSE BoxOfPoints(t, Concat(parts))]
 
+\* records of EQUAL size: the same number of vertices, different coordinates
+EqShape(t, k) ==
+    LET pts == Pts(t, 5 * k, IF IsPointType(t) THEN 1 ELSE 2)
+        parts == IF HasParts(t) THEN << pts, Pts(t, 5 * k + 2, 2) >> ELSE << pts >>
+    IN  [t |-> t, parts |-> parts,
+         kinds |-> IF t = 31 THEN << 0, 1 >> ELSE IF Family(t) = "polygon" THEN << 0, 0 >> ELSE << >>,
+         box |-> IF IsPointType(t) THEN ZeroBox ELSE BoxOfPoints(t, Concat(parts))]
+
 Filler(len, pat) ==
     CASE pat = 0 -> Zeros(len)
       [] pat = 1 -> Fill(len, 255)
@@ -42,8 +50,8 @@ Layout(recs, perm, fl, pat, i, acc, offs) ==
              a2 == acc \o r \o Filler(fl[i + 1], pat)
          IN  Layout(recs, perm, fl, pat, i + 1, a2, [offs EXCEPT ![perm[i]] = start])
 
-MkCase(t, n, perm, fl, pat) ==
-    LET shapes == [k \in 1..n |-> Shape(t, k)]
+MkCaseOf(t, n, perm, fl, pat, equal) ==
+    LET shapes == [k \in 1..n |-> IF equal THEN EqShape(t, k) ELSE Shape(t, k)]
         recs == [k \in 1..n |-> EncodeRecord(k, shapes[k])]
         lay == Layout(recs, perm, fl, pat, 1, Filler(fl[1], pat), [k \in 1..n |-> 0])
         body == lay.bytes
@@ -55,6 +63,14 @@ MkCase(t, n, perm, fl, pat) ==
          shp |-> EncodeHeader(total \div 2, t, ZeroBox) \o body,
          shx |-> EncodeHeader(50 + 4 * n, t, ZeroBox) \o Entries(1)]
 
+MkCase(t, n, perm, fl, pat) == MkCaseOf(t, n, perm, fl, pat, FALSE)
+
+\* the size in bytes of one of the equal-size records: a filler of exactly that size makes a
+\* later record start where a reader that only counts bytes expects the next one
+EqRecLen(t) == Len(EncodeRecord(1, EqShape(t, 1)))
+\* fillers: all empty, or exactly one of them as long as a record
+OneBig(n, t) == { [i \in 1..(n + 1) |-> IF i = j THEN EqRecLen(t) ELSE 0] : j \in 0..(n + 1) }
+
 FillLens == IF Thorough THEN {0, 2, 6, 16} ELSE {0, 6}
 Types == IF Thorough THEN Concrete ELSE Concrete
 Ns == {1, 2, 3}
@@ -63,6 +79,9 @@ Cases == { MkCase(t, 3, p, fl, pat) : t \in Types, p \in Perms(3), fl \in [1..4 
          \cup { MkCase(t, 2, p, fl, 2) : t \in Types, p \in Perms(2), fl \in [1..3 -> {0, 2, 16}] }
          \cup { MkCase(t, 1, p, fl, 1) : t \in Types, p \in Perms(1), fl \in [1..2 -> {0, 6}] }
          \cup (IF Thorough THEN { MkCase(t, 4, p, fl, 2) : t \in {3, 18, 31}, p \in Perms(4), fl \in [1..5 -> {0, 6}] } ELSE {})
+         \* equal-size records: every permutation of 4 (and of 3), no filler or one filler of a record's size
+         \cup UNION { { MkCaseOf(t, 4, p, fl, 0, TRUE) : p \in Perms(4), fl \in OneBig(4, t) } : t \in Types }
+         \cup UNION { { MkCaseOf(t, 3, p, fl, 1, TRUE) : p \in Perms(3), fl \in OneBig(3, t) } : t \in Types }
 
 MetaLine == [ev |-> "meta", exactxy |-> TRUE,
              fxy |-> [k \in {ToString(v) : v \in DOMAIN StdXY} |-> StdXY[CHOOSE v \in DOMAIN StdXY : ToString(v) = k]],
